@@ -72,8 +72,8 @@ def _scripts(ctx, sessions):
     for s in cuts + sims:
         src = s["src"].split("-")[0] if s["src"].startswith("sim") else s["src"]
         by.setdefault((s["sess"], src), {})[json.dumps(s["segs"])] = s   # de-duplicated
-    caps = {"cut0": 1, "cut1": 30 if quick else 10 ** 9, "cut2": 70 if quick else 2500, "ones": 1, "ones-head": 1, "chunks": 6, "frames": 3,
-            "sim": 25 if quick else 400}
+    caps = {"cut0": 1, "cut1": 30 if quick else 10 ** 9, "cut2": 70 if quick else 1500, "ones": 1, "ones-head": 1, "chunks": 6, "frames": 3,
+            "sim": 25 if quick else 300}
     out = []
     nframes = {x["sess"]: len(x["frames"]) for x in sessions}
     gen_counts = {}
@@ -100,7 +100,7 @@ def _run_and_validate(ctx, scripts, extra_args=()):
         for s in scripts:
             f.write(json.dumps(s) + "\n")
     lp = ctx.path("log.ndjson")
-    ctx.harness(["-scripts", sp, "-out", lp, "-par", "64", "-xpar", "1500"] + list(extra_args), timeout=2400)
+    ctx.harness(["-scripts", sp, "-out", lp, "-par", "64", "-xpar", "800"] + list(extra_args), timeout=2400)
     # validate in chunks of whole runs
     chunks, curr = [], []
     ops = {}
